@@ -92,8 +92,8 @@ type runner struct {
 	trGoIDs           []string
 }
 
-func memPort(i int) sim.RemotePort { return sim.RemotePort(fmt.Sprintf("Mem%d", i)) }
-func tlbPort(i int) sim.RemotePort { return sim.RemotePort(fmt.Sprintf("TLB%d", i)) }
+func memPort(i int) sim.RemotePort  { return sim.RemotePort(fmt.Sprintf("Mem%d", i)) }
+func tlbPort(i int) sim.RemotePort  { return sim.RemotePort(fmt.Sprintf("TLB%d", i)) }
 func agent(n uint64) sim.RemotePort { return sim.RemotePort(fmt.Sprintf("Agent%d", n)) }
 
 func newRunner(c Config) *runner {
@@ -439,8 +439,8 @@ func generate(rng *vh.Rng, hostile bool) Case {
 		wCtl = 1 + rng.Intn(4)
 	}
 	wBad := 0
-	if hostile {
-		wBad = 3
+	if hostile && rng.Intn(3) == 0 {
+		wBad = 1 // messages that make the translator panic end a history early: keep them rare
 	}
 	for i := 0; i < n && !g.crashed; i++ {
 		switch rng.Pick(wTop, wTrAns, wBotAns, wTick, wRT, wRB, wRX, wCtl, wCtl, wBad) {
